@@ -13,6 +13,11 @@ pub enum Tier {
 pub const SPECIAL_PERIODS: [usize; 25] = [1, 2, 3, 4, 7, 8, 9, 15, 16, 17, 31, 32, 33, 63, 64, 65, 100, 127, 128, 129, 255, 256, 257, 512, 1024];
 
 pub fn random_period(rng: &mut Rng, tier: Tier) -> usize {
+    // very rarely a giant window (block-wise loops, periodic re-syncs and small-buffer thresholds only
+    // show beyond a few thousand slots); such runs are long, so they are few
+    if rng.chance(0.0003) {
+        return rng.log_range(1025, 12_000);
+    }
     if rng.chance(0.35) {
         return rng.range(1, 5);
     }
